@@ -127,6 +127,7 @@ let prelude () =
     [false; true]) [false; true]) [0; 1; 2]) [false; true]) [false; true];
   add "template <class U> constexpr bool dtor_ok = requires { std::declval<U&>().~U(); };";
   add "template <class F, class T> constexpr bool call_ok = requires { std::declval<void (&)(T)>()(std::declval<F>()); };";
+  add "template <class F, class T> constexpr bool ncall_ok = requires { { std::declval<void (&)(T) noexcept>()(std::declval<F>()) } noexcept; };";
   (* does X<T...> have a member `type` (SFINAE-friendly traits only) *)
   add "#define Z_HAS_TYPE(ns, tr) template <class... T> constexpr bool ns##_has_##tr = requires { typename ns::tr<T...>::type; };";
   (* lines tagged /*etl*/ are left out of the translation units that test std alone *)
@@ -499,6 +500,10 @@ let emit tier cfgs seed =
     let cexpr = function CFalse -> "false" | CTrue -> "true" | CAsk -> sp "z::call_ok<%s, %s>" ra rb in
     obl "corr" "is_convertible (library)" key (sp "etl::is_convertible_v<%s, %s> == %s" ra rb (cexpr (is_convertible_q a b)));
     obl "specval" "is_convertible (library)" key (sp "std::is_convertible_v<%s, %s> == %s" ra rb (cexpr (std_is_convertible_q a b)));
+    (* is_nothrow_convertible has the same shape with "well-formed and noexcept" as the question *)
+    let ncexpr = function CFalse -> "false" | CTrue -> "true" | CAsk -> sp "z::ncall_ok<%s, %s>" ra rb in
+    obl "corr" "is_nothrow_convertible (library)" key (sp "etl::is_nothrow_convertible_v<%s, %s> == %s" ra rb (ncexpr (is_convertible_q a b)));
+    obl "specval" "is_nothrow_convertible (library)" key (sp "std::is_nothrow_convertible_v<%s, %s> == %s" ra rb (ncexpr (std_is_convertible_q a b)));
     obl "corr" "recorded: common_reference_with" key
       (sp "etl::common_reference_with<%s, %s> == (std::is_same_v<%s, %s> && std::convertible_to<%s, %s>)" ra rb ra rb ra ra);
     (* common_reference_t<T const&, U const&> exists only for identical operands, and must equal
@@ -544,8 +549,8 @@ let emit tier cfgs seed =
       "index_of", "etl::meta::index_of_v<char, etl::meta::list<int, char, long>> == 1 && etl::meta::index_of_v<int, etl::meta::list<int, char, long>> == 0" ];
   (* ---- a fixed family of classes related by inheritance (the generated classes have no bases):
           public, private, virtual, ambiguous (diamond without virtual) and indirect bases *)
-  line [ "H"; "namespace zb { struct B { int b; }; struct D : B { }; struct P : private B { }; struct V : virtual B { }; struct A1 : B { }; struct A2 : B { }; struct M : A1, A2 { }; struct I : D { }; struct Poly { virtual ~Poly(); }; struct PD : Poly { }; union U { int u; }; struct Conv { operator B() const; operator int() const noexcept; }; struct Expl { explicit Expl(B const&); Expl(int) noexcept; }; struct NC { NC(); NC(NC&); NC& operator=(NC&); }; struct MO { MO(MO&&) noexcept; MO& operator=(MO&&); }; struct PDt { private: ~PDt(); }; struct TDt { ~TDt() noexcept(false); }; struct WL { }; struct WR { }; bool operator==(WL, WR); void operator!=(WR, WL) = delete; struct NB { struct R2 { }; R2 operator==(NB) const; }; struct EQ { bool operator==(EQ const&) const; }; struct CA { CA(CA const&); CA(CA&&); CA& operator=(CA&); CA& operator=(CA&&); CA& operator=(CA const&&); CA& operator=(CA const&) = delete; }; struct Ex2 { explicit Ex2() = default; }; struct Agg { Ex2 e; }; }" ];
-  let fam = [ "zb::B"; "zb::D"; "zb::P"; "zb::V"; "zb::A1"; "zb::M"; "zb::I"; "zb::Poly"; "zb::PD"; "zb::U"; "zb::Conv"; "zb::Expl"; "zb::NC"; "zb::MO"; "zb::PDt"; "zb::TDt"; "zb::WL"; "zb::WR"; "zb::NB"; "zb::EQ"; "zb::CA"; "zb::Agg";
+  line [ "H"; "namespace zb { struct B { int b; }; struct D : B { }; struct P : private B { }; struct V : virtual B { }; struct A1 : B { }; struct A2 : B { }; struct M : A1, A2 { }; struct I : D { }; struct Poly { virtual ~Poly(); }; struct PD : Poly { }; union U { int u; }; struct Conv { operator B() const; operator int() const noexcept; }; struct Expl { explicit Expl(B const&); Expl(int) noexcept; }; struct NC { NC(); NC(NC&); NC& operator=(NC&); }; struct MO { MO(MO&&) noexcept; MO& operator=(MO&&); }; struct PDt { private: ~PDt(); }; struct TDt { ~TDt() noexcept(false); }; struct WL { }; struct WR { }; bool operator==(WL, WR); void operator!=(WR, WL) = delete; struct NB { struct R2 { }; R2 operator==(NB) const; }; struct EQ { bool operator==(EQ const&) const; }; struct CA { CA(CA const&); CA(CA&&); CA& operator=(CA&); CA& operator=(CA&&); CA& operator=(CA const&&); CA& operator=(CA const&) = delete; }; struct Ex2 { explicit Ex2() = default; }; struct Agg { Ex2 e; }; struct SA { }; struct SB { }; void swap(SA&, SB&) noexcept; void swap(SB&, SA&); struct TD { TD() noexcept(false); }; }" ];
+  let fam = [ "zb::B"; "zb::D"; "zb::P"; "zb::V"; "zb::A1"; "zb::M"; "zb::I"; "zb::Poly"; "zb::PD"; "zb::U"; "zb::Conv"; "zb::Expl"; "zb::NC"; "zb::MO"; "zb::PDt"; "zb::TDt"; "zb::WL"; "zb::WR"; "zb::NB"; "zb::EQ"; "zb::CA"; "zb::Agg"; "zb::SA"; "zb::SB"; "zb::TD";
               "zb::D const"; "zb::B volatile"; "int"; "void" ] in
   List.iter (fun x -> List.iter (fun y ->
       let key = x ^ " ; " ^ y in
@@ -559,17 +564,20 @@ let emit tier cfgs seed =
       if x <> "void" && y <> "void" then begin
         obl "prop" "pointer conversion (inheritance)" key
           (sp "etl::is_convertible_v<%s*, %s*> == std::is_convertible_v<%s*, %s*> && etl::is_constructible_v<%s&, %s&> == std::is_constructible_v<%s&, %s&> && etl::is_assignable_v<%s*&, %s*> == std::is_assignable_v<%s*&, %s*>" x y x y x y x y x y x y);
+        obl "prop" "swappable_with (inheritance)" key
+          (sp "etl::is_swappable_with_v<%s&, %s&> == std::is_swappable_with_v<%s&, %s&> && etl::is_nothrow_swappable_with_v<%s&, %s&> == std::is_nothrow_swappable_with_v<%s&, %s&>" x y x y x y x y);
         obl "prop" "common_type (inheritance)" key (sp "z::common_type_agrees<%s*, %s*> && z::common_type_agrees<%s, %s>" x y x y)
       end) fam) fam;
   List.iter (fun x ->
       List.iter (fun tr -> obl "prop" (tr ^ " (inheritance)") x (sp "etl::%s_v<%s> == std::%s_v<%s>" tr x tr x))
         (List.filter (fun tr -> tr <> "is_trivially_copy_constructible") prop_unary);
-      List.iter (fun c -> if not (c = "swappable" && x = "zb::TDt") then
-                    obl "prop" ("concept " ^ c ^ " (inheritance)") x (sp "etl::%s<%s> == std::%s<%s>" c x c x))
+      List.iter (fun c -> obl "prop" ("concept " ^ c ^ " (inheritance)") x (sp "etl::%s<%s> == std::%s<%s>" c x c x))
         prop_concepts_unary;
       obl "prop" "concept boolean_testable (inheritance)" x (sp "etl::boolean_testable<%s> == std::__detail::__boolean_testable<%s> && etl::boolean_testable<decltype(std::declval<zb::NB>() == std::declval<zb::NB>())> == std::__detail::__boolean_testable<decltype(std::declval<zb::NB>() == std::declval<zb::NB>())>" x x);
       List.iter (fun sfx -> obl "prop" "unary traits on arrays / references (inheritance)" (x ^ sfx)
-                    (sp "etl::is_destructible_v<%s%s> == std::is_destructible_v<%s%s> && etl::is_nothrow_destructible_v<%s%s> == std::is_nothrow_destructible_v<%s%s> && etl::is_copy_constructible_v<%s%s> == std::is_copy_constructible_v<%s%s> && etl::is_move_assignable_v<%s%s> == std::is_move_assignable_v<%s%s> && etl::is_trivially_destructible_v<%s%s> == std::is_trivially_destructible_v<%s%s>" x sfx x sfx x sfx x sfx x sfx x sfx x sfx x sfx x sfx x sfx))
+                    (* (whether the destructor of the temporary counts for is_nothrow_constructible is LWG 2116;
+                        g++ 12 answers differently for T and T[N] when ~T() may throw: not compared for zb::TDt) *)
+                    (sp "etl::is_default_constructible_v<%s%s> == std::is_default_constructible_v<%s%s> && (%s || etl::is_nothrow_default_constructible_v<%s%s> == std::is_nothrow_default_constructible_v<%s%s>) && (%s || etl::is_nothrow_constructible_v<%s%s> == std::is_nothrow_constructible_v<%s%s>) && etl::is_destructible_v<%s%s> == std::is_destructible_v<%s%s> && etl::is_nothrow_destructible_v<%s%s> == std::is_nothrow_destructible_v<%s%s> && etl::is_copy_constructible_v<%s%s> == std::is_copy_constructible_v<%s%s> && etl::is_move_assignable_v<%s%s> == std::is_move_assignable_v<%s%s> && etl::is_trivially_destructible_v<%s%s> == std::is_trivially_destructible_v<%s%s>" x sfx x sfx (bs (x = "zb::TDt")) x sfx x sfx (bs (x = "zb::TDt")) x sfx x sfx x sfx x sfx x sfx x sfx x sfx x sfx x sfx x sfx x sfx x sfx))
         (List.filter (fun sfx -> not (sfx = " const" && x = "zb::D const")) [ "[2]"; "[2][3]"; "&"; "&&"; " const"; "*" ]))
     (List.filter (fun x -> x <> "void" && x <> "int") fam);
   (* ---- etl::meta lists built from the zoo (with repetitions): every operation against ModelMeta.v *)
@@ -622,6 +630,7 @@ let emit tier cfgs seed =
       "ratio SI typedefs", "std::ratio_equal_v<std::ratio<etl::atto::num, etl::atto::den>, std::atto> && std::ratio_equal_v<std::ratio<etl::femto::num, etl::femto::den>, std::femto> && std::ratio_equal_v<std::ratio<etl::pico::num, etl::pico::den>, std::pico> && std::ratio_equal_v<std::ratio<etl::nano::num, etl::nano::den>, std::nano> && std::ratio_equal_v<std::ratio<etl::micro::num, etl::micro::den>, std::micro> && std::ratio_equal_v<std::ratio<etl::milli::num, etl::milli::den>, std::milli> && std::ratio_equal_v<std::ratio<etl::centi::num, etl::centi::den>, std::centi> && std::ratio_equal_v<std::ratio<etl::deci::num, etl::deci::den>, std::deci> && std::ratio_equal_v<std::ratio<etl::deca::num, etl::deca::den>, std::deca> && std::ratio_equal_v<std::ratio<etl::hecto::num, etl::hecto::den>, std::hecto> && std::ratio_equal_v<std::ratio<etl::kilo::num, etl::kilo::den>, std::kilo> && std::ratio_equal_v<std::ratio<etl::mega::num, etl::mega::den>, std::mega> && std::ratio_equal_v<std::ratio<etl::giga::num, etl::giga::den>, std::giga> && std::ratio_equal_v<std::ratio<etl::tera::num, etl::tera::den>, std::tera> && std::ratio_equal_v<std::ratio<etl::peta::num, etl::peta::den>, std::peta> && std::ratio_equal_v<std::ratio<etl::exa::num, etl::exa::den>, std::exa>";
       "is_constant_evaluated", "etl::is_constant_evaluated()";
       "invoke_result member pointers", "z::invoke_result_agrees<int (zb::B::*)(int), zb::B&, int> && z::invoke_result_agrees<int (zb::B::*)(int), zb::B*, int> && z::invoke_result_agrees<int (zb::B::*)(int), zb::D&, long> && z::invoke_result_agrees<int (zb::B::*)(int), zb::B const&, int> && z::invoke_result_agrees<int (zb::B::*)(int) const, zb::B const&, int> && z::invoke_result_agrees<int (zb::B::*)(int) &&, zb::B&, int> && z::invoke_result_agrees<int (zb::B::*)(int) &&, zb::B, int> && z::invoke_result_agrees<int zb::B::*, zb::B&> && z::invoke_result_agrees<int zb::B::*, zb::D*> && z::invoke_result_agrees<int zb::B::*, zb::B const> && z::invoke_result_agrees<int zb::B::*, zb::B&, int> && z::invoke_result_agrees<int zb::B::*, int> && z::invoke_result_agrees<int (zb::B::*)(int), zb::P&, int> && z::invoke_result_agrees<int (zb::B::*)(int) noexcept, zb::I*, char>";
+      "invoke with reference_wrapper", "std::is_same_v<etl::invoke_result_t<int zb::B::*, etl::reference_wrapper<zb::B>>, std::invoke_result_t<int zb::B::*, std::reference_wrapper<zb::B>>> && std::is_same_v<etl::invoke_result_t<int (zb::B::*)(int), etl::reference_wrapper<zb::D>, int>, std::invoke_result_t<int (zb::B::*)(int), std::reference_wrapper<zb::D>, int>> && std::is_same_v<etl::invoke_result_t<int zb::B::*, etl::reference_wrapper<zb::B const>>, std::invoke_result_t<int zb::B::*, std::reference_wrapper<zb::B const>>> && etl::is_invocable_v<int zb::B::*, etl::reference_wrapper<zb::B>> && etl::is_reference_wrapper_v<etl::reference_wrapper<int>> && std::is_same_v<etl::unwrap_reference_t<etl::reference_wrapper<int>>, int&> && std::is_same_v<etl::unwrap_ref_decay_t<etl::reference_wrapper<int> const&>, int&>";
       "is_invocable member pointers", "etl::is_invocable_v<int (zb::B::*)(int), zb::B&, int> == std::is_invocable_v<int (zb::B::*)(int), zb::B&, int> && etl::is_invocable_v<int (zb::B::*)(int), zb::B const&, int> == std::is_invocable_v<int (zb::B::*)(int), zb::B const&, int> && etl::is_invocable_v<int zb::B::*, zb::D*> == std::is_invocable_v<int zb::B::*, zb::D*> && etl::is_invocable_v<int zb::B::*, zb::M&> == std::is_invocable_v<int zb::B::*, zb::M&> && etl::is_invocable_r_v<long, int zb::B::*, zb::B&> == std::is_invocable_r_v<long, int zb::B::*, zb::B&> && etl::is_invocable_r_v<int&, int zb::B::*, zb::B&> == std::is_invocable_r_v<int&, int zb::B::*, zb::B&> && etl::is_invocable_r_v<int&, int zb::B::*, zb::B> == std::is_invocable_r_v<int&, int zb::B::*, zb::B>";
       "byte", "etl::to_integer<int>(etl::byte{5} << 2) == std::to_integer<int>(std::byte{5} << 2) && etl::to_integer<unsigned>(etl::byte{0xF0} >> 3) == std::to_integer<unsigned>(std::byte{0xF0} >> 3) && etl::to_integer<int>(etl::byte{0x81} << 1) == std::to_integer<int>(std::byte{0x81} << 1) && etl::to_integer<int>(etl::byte{0xA5} | etl::byte{0x0F}) == std::to_integer<int>(std::byte{0xA5} | std::byte{0x0F}) && etl::to_integer<int>(etl::byte{0xA5} & etl::byte{0x0F}) == std::to_integer<int>(std::byte{0xA5} & std::byte{0x0F}) && etl::to_integer<int>(etl::byte{0xA5} ^ etl::byte{0xFF}) == std::to_integer<int>(std::byte{0xA5} ^ std::byte{0xFF}) && etl::to_integer<int>(~etl::byte{0xA5}) == std::to_integer<int>(~std::byte{0xA5}) && etl::to_integer<signed char>(etl::byte{0xFF}) == std::to_integer<signed char>(std::byte{0xFF}) && sizeof(etl::byte) == 1";
       "numeric_limits primary template", "!etl::numeric_limits<int*>::is_specialized && etl::numeric_limits<int*>::digits == 0 && !etl::numeric_limits<zb::B>::is_specialized && !etl::numeric_limits<zb::B>::is_signed && etl::numeric_limits<zb::B>::radix == 0 && etl::numeric_limits<int*>::max() == nullptr && etl::numeric_limits<int const volatile>::max() == std::numeric_limits<int const volatile>::max() && std::is_same_v<decltype(etl::numeric_limits<short const>::min()), short> && etl::numeric_limits<zb::B>::round_style == etl::round_toward_zero && etl::numeric_limits<zb::B>::has_denorm == etl::denorm_absent";
